@@ -24,7 +24,7 @@ CONFIGS = ["shared-pandas", "separate-pandas", "polars-mixed", "polars-eager-onl
 
 
 def plan(tier):
-    return {"runs": 2400 if tier == "quick" else 60000, "timeout_s": 1500 if tier == "quick" else 6 * 3600}
+    return {"runs": 3200 if tier == "quick" else 60000, "timeout_s": 1500 if tier == "quick" else 6 * 3600}
 
 
 def describe():
@@ -85,7 +85,7 @@ def gen_workload(rng, idx):
 
     if cfg in ("shared-pandas", "shared-polars"):
         backend = "pandas" if cfg == "shared-pandas" else "polars"
-        g, spec = _spec(rng, backend, kind=rng.choice(["dfs", "dfs", "dfs", "series", "column"] if backend == "pandas" else ["dfs", "dfs", "column"]),
+        g, spec = _spec(rng, backend, kind=rng.choice(["dfs", "dfs", "dfs", "series", "column", "index"] if backend == "pandas" else ["dfs", "dfs", "column"]),
                         force=SHARED_FORCE + (("drop_invalid_rows",) if backend == "pandas" else ()),
                         deny=DENY_SHARED if backend == "pandas" else DENY)
         subjects.append(spec)
